@@ -252,6 +252,26 @@ Example C13_ex4 :
   spec_operate exact_op (fstr_tab []) OSub true (Col KFloat [0%N; 1%N] [VFlt (FFin false 1 0); VFlt FNan]) (OCol KInt [VInt 3; VInt 4])
   = Ok (Col KFloat [0%N; 1%N] [VFlt (FFin false 1 1); VFlt FNan]).
 Proof. vm_compute. reflexivity. Qed.
+(* ** beyond 2^53 stays exact in an IntColumn (7**20, (-3)**39, 3**35), both operand orders, rows in any order *)
+Example C13_ex6 :
+  operate exact_op (fstr_tab []) DPow (Col KInt [2%N; 0%N; 1%N] [VInt 7; VInt (-3); VInt 2]) (OSeq [PInt 20; PInt 39; PInt 3])
+  = Ok (Col KInt [2%N; 0%N; 1%N] [VInt 79792266297612001; VInt (-4052555153018976267); VInt 8]) /\
+  spec_operate exact_op (fstr_tab []) OPow true (Col KInt [1%N; 0%N] [VInt 35; VInt 2]) (OScalar (PInt 3))
+  = Ok (Col KInt [1%N; 0%N] [VInt 50031545098999707; VInt 9]).
+Proof. vm_compute. split; reflexivity. Qed.
+(* col @ f / map_(f, col) hold f(cell_i) also for cells that compare equal: +0.0 / -0.0 under copysign(1.0, x),
+   3 / 3.0 in a derived MixedColumn under a function that names the type *)
+Example C13_ex7 :
+  let f := ftab_fun [(VFlt (FZero false), PFloat (FFin false 1 0)); (VFlt (FZero true), PFloat (FFin true 1 0))] in
+  let c := Col KFloat [1%N; 2%N; 0%N] [VFlt (FZero true); VFlt (FZero false); VFlt (FZero true)] in
+  spec_map f c = Ok (Col KFloat [1%N; 2%N; 0%N] [VFlt (FFin true 1 0); VFlt (FFin false 1 0); VFlt (FFin true 1 0)]) /\
+  map_col f c = spec_map f c.
+Proof. vm_compute. split; reflexivity. Qed.
+Example C13_ex8 :
+  let f := ftab_fun [(VInt 3, PStr "i" None None); (VFlt (FFin false 3 0), PStr "f" None None)] in
+  let c := Col KMixed [0%N; 1%N; 2%N] [VFlt (FFin false 3 0); VInt 3; VFlt (FFin false 3 0)] in
+  spec_map f c = Ok (Col KMixed [0%N; 1%N; 2%N] [VStr "f"; VStr "i"; VStr "f"]) /\ map_col f c = spec_map f c.
+Proof. vm_compute. split; reflexivity. Qed.
 
 (* ---------- SeriesColumn *)
 From DM Require Import Spec.ArithSeries Model.ArithSeries Proofs.ArithSeriesFacts.
